@@ -1586,6 +1586,21 @@ SoPlexBase<R>& SoPlexBase<R>::operator=(const SoPlexBase<R>& rhs)
       _hasBasis = rhs._hasBasis;
       _applyPolishing = rhs._applyPolishing;
 
+      // copy the counters that decide whether persistent scaling is reapplied and the state of precision boosting (a copy
+      // constructed object has no other initialization of these members)
+      _optimizeCalls = rhs._optimizeCalls;
+      _unscaleCalls = rhs._unscaleCalls;
+      _boostingLimitReached = rhs._boostingLimitReached;
+      _switchedToBoosted = rhs._switchedToBoosted;
+      _certificateMode = rhs._certificateMode;
+      _lastStallPrecBoosts = rhs._lastStallPrecBoosts;
+      _factorSolNewBasisPrecBoost = rhs._factorSolNewBasisPrecBoost;
+      _nextRatrecPrecBoost = rhs._nextRatrecPrecBoost;
+      _prevIterations = rhs._prevIterations;
+      _hasOldBasis = rhs._hasOldBasis;
+      _hasOldFeasBasis = rhs._hasOldFeasBasis;
+      _hasOldUnbdBasis = rhs._hasOldUnbdBasis;
+
       // rational constants do not need to be assigned
 #ifdef SOPLEX_WITH_BOOST
       _rationalPosone = 1;
